@@ -265,6 +265,8 @@ def run(ctx):
     ]
     if not quick:
         jobs.append(("Chunk", "Chunk_MC_big3.cfg", {}))
+        # design check of the proposed repair of nextPipe (poll w.closing under readerMu before the select)
+        jobs.append(("Pipeline", "Pipeline_MC_cancel_fixed.cfg", {"deadlock": True}))
     with ThreadPoolExecutor(max_workers=len(jobs)) as ex:
         futs = [ex.submit(ctx.tlc, m, c, timeout=2400, workers=4 if quick else 8, **kw) for (m, c, kw) in jobs]
         results = [f.result() for f in futs]
@@ -277,7 +279,8 @@ def run(ctx):
     if probe["errors"] and not model_panics:
         raise Inconclusive("Pipeline cancel probe failed:\n" + probe["out"][-3000:])
     ctx.notes["pipeline"] = {"K": [0, 1, 2], "deadlock_free": True, "termination": True, "complete_without_cancel": True,
-                             "cancel_model_reaches_panic": model_panics}
+                             "cancel_model_reaches_panic": model_panics,
+                             "repair_ClosingCheck_model_checked(NoPanic,Termination,deadlock)": not quick}
 
     behs = ctx.behaviours(results[5])
     if not behs:
